@@ -1365,6 +1365,9 @@ func sizeCases(quick bool) []deepCase {
 		}
 		ps := []pcfg{{W: 80, D: 3, Al: bi%2 == 0}, {W: 1000, D: 2, Al: bi%2 == 1}}
 		res = append(res, deepCase{aStr(sv), oset[(bi+sd)%len(oset)], ps[:1]})
+		if b.n > 20000 {
+			continue // the very long one as top-level value only (the combined tree costs TLC minutes)
+		}
 		res = append(res, deepCase{aArr(aStr(sv), aObj(kk, aInt(1), "a", aStr(sv))), oset[(bi+sd+1)%len(oset)], ps})
 	}
 	return res
